@@ -1,6 +1,8 @@
 import VlsModel.Model.Locks
 import VlsModel.Lemmas.Locks
 import VlsModel.Gen.LockTable
+import VlsModel.Model.Locks2pl
+import VlsModel.Lemmas.Locks2pl
 /-
 Property C20 — concurrent requests neither deadlock nor break per-channel atomicity.
 
@@ -18,12 +20,19 @@ Property C20 — concurrent requests neither deadlock nor break per-channel atom
   in `subKinds` (12 of the 17 scanned kinds: all channel requests on any channels, balance/chaninfo,
   on-chain checks and signing, new_channel, invoice/keysend approval, allowlist operations); the
   acyclicity of that sub-table is `C20_subtable_acyclic`, by `decide +kernel` over the generated table.
-* `Locks_2pl_exclusive_partial`: the lock-level half of the serializability argument (mutual
-  exclusion: two threads never hold the same lock, so the events a channel request executes between
-  acquiring and releasing `slot i` are never interleaved with another holder of `slot i`).  The
-  full conflict-serializability theorem `Locks_2pl_serializable` is NOT proved (it needs a data model
-  of the channel state; stated below in a comment); serializability of outcomes is validated by the
-  harness (every concurrent outcome is compared with all sequential orders).
+* `Locks_2pl_exclusive_partial`: mutual exclusion (two threads never hold the same lock, so the events a
+  channel request executes between acquiring and releasing `slot i` are never interleaved with
+  another holder of `slot i`).
+* `Locks_2pl_serializable` (general, unbounded; lock model with data `Model/Locks2pl.lean`): strict
+  two-phase requests — acquire/update first, then only release; `slot i` held for the whole
+  read-modify-write of channel `i`, `node_state` for the node ledger — are serializable: the final
+  data of every complete interleaved execution equals the data after running all requests
+  sequentially in the order of their first releases.  Limits: the theorem is about the model class
+  of strict two-phase requests with deterministic critical sections; replies are not modelled; a
+  request of the code that opens several independent critical sections (e.g. the channel-map
+  lookup of `with_channel`, `get_heartbeat`: node_state, then tracker) is a sequence of such
+  transactions and is covered per transaction only.  Serializability of whole requests of the
+  implementation (replies + final state) is validated by the harness against all sequential orders.
 -/
 namespace VlsModel.Props.C20
 open VlsModel.Locks VlsModel.Gen.LockTable
@@ -204,11 +213,9 @@ abbrev Exclusive {L : Type} (s : State L) : Prop :=
   ∀ (i j : Nat) (ti tj : Thread L), s[i]? = some ti → s[j]? = some tj → i ≠ j → ∀ l, l ∈ ti.held → l ∉ tj.held
 
 /-
-Full statement (NOT proved): `Locks_2pl_serializable` — extend events with reads/writes of the
-channel state guarded by `slot i` (and of the node ledger guarded by `node_state`); if every request
-performs the accesses to channel `i` inside one `slot i` critical section, every complete execution
-is conflict-equivalent to a sequential execution of the same requests.  What is proved below is the
-mutual-exclusion invariant this argument starts from.
+`Locks_2pl_serializable` (below, after the mutual-exclusion invariant) is proved in the lock model with
+data (`Model/Locks2pl.lean`): every lock guards one data cell, `upd l f` is a deterministic
+read-modify-write enabled only while `l` is held.
 -/
 
 /-- **Mutual exclusion is an invariant** of the interleaving semantics (any requests, any schedule):
@@ -279,6 +286,81 @@ theorem Locks_2pl_exclusive_partial {L : Type} [DecidableEq L] (reqs : List (Lis
     | refl => exact id
     | tail _ hstep ih => intro ha; exact step_inv _ _ (ih ha) hstep
   exact all n _ s hs h0
+
+/-! ### Serializability of strict two-phase requests -/
+
+section serializable
+open VlsModel.Locks2pl
+
+/-- **Strict two-phase requests are serializable** (unbounded: any lock/data types, any number of
+threads, any schedule).  Every request first only acquires locks and updates the cells it holds
+(`slot i` for the whole read-modify-write of channel `i`, `node_state` for the node ledger) and then
+only releases (`strict2pl`), and releases at least once.  Then for every complete interleaved
+execution there is a sequential order of ALL the requests — the order of their first releases — such
+that the final data equals the data after running the requests one after the other in that order.
+(By `runReq_apply` the value of each cell is the composition of the critical sections on that cell
+in that order: the per-lock critical-section order of the execution is the one of the sequential
+run.) -/
+theorem Locks_2pl_serializable {L D : Type} [DecidableEq L] (mem0 : L → D)
+    (reqs : List (List (DEv L D)))
+    (hstrict : ∀ r ∈ reqs, strict2pl r = true) (hrel : ∀ r ∈ reqs, hasRel r = true) :
+    ∀ n s, Locks2pl.Steps n (Locks2pl.mkState mem0 reqs) s → Locks2pl.allDone s →
+      ∃ order : List Nat, order.Nodup ∧ (∀ i, i ∈ order ↔ i < reqs.length) ∧
+        ∀ l, s.mem l = (order.foldl (fun m i => runReq m (reqs[i]?.getD [])) mem0) l := by
+  intro n s hs hdone
+  have inv := inv_steps mem0 _ hs (inv_init mem0 reqs hstrict hrel)
+  have hlen : s.threads.length = reqs.length := by
+    rw [inv.len]; simp [Locks2pl.mkState]
+  have hcommitted : ∀ (i : Nat) (t : DThread L D), s.threads[i]? = some t → t.committed = true := by
+    intro i t hi
+    have hmem : t ∈ s.threads := List.mem_of_getElem? hi
+    cases hc : t.committed with
+    | true => rfl
+    | false =>
+      have := ((inv.tinv t hmem).2.2 hc).2.1
+      rw [hdone t hmem] at this
+      simp [hasRel] at this
+  refine ⟨s.commits, inv.cnodup, ?_, ?_⟩
+  · intro i
+    rw [inv.cmem i]
+    constructor
+    · rintro ⟨t, ht, _⟩
+      rcases Nat.lt_or_ge i s.threads.length with h | h
+      · omega
+      · simp [h] at ht
+    · intro hi
+      have hlt : i < s.threads.length := by omega
+      exact ⟨s.threads[i], by simp [hlt], hcommitted i _ (by simp [hlt])⟩
+  · intro l
+    rw [inv.memA l (by
+      intro j tj hj hjc
+      rw [hcommitted j tj hj] at hjc; cases hjc)]
+    rw [serialMem_congr mem0 inv.reqs_same]
+    unfold serialMem
+    have : (fun (m : L → D) (i : Nat) => runReq m (reqAt (Locks2pl.mkState mem0 reqs).threads i))
+        = (fun m i => runReq m (reqs[i]?.getD [])) := by
+      funext m i
+      congr 1
+      unfold reqAt Locks2pl.mkState
+      simp only [List.getElem?_map]
+      cases reqs[i]? <;> rfl
+    rw [this]
+
+/-- non-vacuity: a commitment-update-like request (slot 0, then the node ledger 9, both held to the
+end) and a ledger-only request, strict two-phase, interleaved (thread 0 acquires slot 0 and updates it,
+thread 1 runs completely, thread 0 continues): the execution completes, thread 1 commits first, and
+the final cells are those of the sequential order [1, 0] (cell 9: (0 + 5) * 2 = 10, not (0 * 2) + 5) -/
+example :
+    let r0 : List (DEv Nat Nat) := [.acq 0, .upd 0 (· + 1), .acq 9, .upd 9 (· * 2), .rel 9, .rel 0]
+    let r1 : List (DEv Nat Nat) := [.acq 9, .upd 9 (· + 5), .rel 9]
+    (strict2pl r0 && strict2pl r1 && hasRel r0 && hasRel r1) = true ∧
+    ((Locks2pl.runSched (Locks2pl.mkState (fun _ => 0) [r0, r1]) [0, 0, 1, 1, 1, 0, 0, 0, 0]).map
+        (fun s => (s.commits, s.mem 0, s.mem 9, s.threads.all (fun t => t.todo.isEmpty))))
+      = some ([1, 0], 1, 10, true) ∧
+    (runReq (runReq (fun _ => 0) r1) r0) 9 = 10 := by
+  decide +kernel
+
+end serializable
 
 /-! ### Non-vacuity -/
 
